@@ -256,6 +256,44 @@ theorem complete_group (o : GenOpts) (hc : o.combine = true) (g0 conts : List By
   · simp only [List.cons_append, List.foldl_cons, hstep]
     simpa using h.2
 
+/-- The negative clause over a whole group: the same shape of history but with a sequence gap anywhere in it — no
+    member is ever emitted, the one sequence warning comes at the LAST packet, and the APID is idle afterwards. -/
+theorem open_group_gap_dropped (o : GenOpts) (hc : o.combine = true) (g conts : List Bytes) (last : Bytes)
+    (hg : g ≠ []) (hcs : ∀ c ∈ conts, seqFlags c = 0) (hl : seqFlags last = 2)
+    (hgap : consecutiveCounts ((g ++ conts ++ [last]).map seqCount) = false) :
+    autoRun o g (conts ++ [last]) =
+      conts.map (fun _ => (none, [])) ++ [(none, [.warnSequence])] ∧
+    (conts ++ [last]).foldl (fun st b => (autoStep o st b).1) g = [] := by
+  induction conts generalizing g with
+  | nil =>
+    have hge : g.isEmpty = false := by simpa [List.isEmpty_iff] using hg
+    have hgap' : consecutiveCounts (List.map seqCount g ++ [seqCount last]) = false := by simpa using hgap
+    simp [autoRun, autoStep, hc, hl, hge, hgap', hg]
+  | cons c cs ih =>
+    have hge : g.isEmpty = false := by simpa [List.isEmpty_iff] using hg
+    have hc0 : seqFlags c = 0 := hcs c (by simp)
+    have hstep : autoStep o g c = (g ++ [c], none, []) := by simp [autoStep, hc, hc0, hge]
+    have hih := ih (g ++ [c]) (by simp) (fun x hx => hcs x (by simp [hx])) (by simpa using hgap)
+    constructor
+    · simp only [List.cons_append, autoRun, hstep, hih.1]
+      simp
+    · simp only [List.cons_append, List.foldl_cons, hstep]
+      simpa using hih.2
+
+theorem gap_group_dropped (o : GenOpts) (hc : o.combine = true) (g0 conts : List Bytes) (first last : Bytes)
+    (hf : seqFlags first = 1) (hcs : ∀ c ∈ conts, seqFlags c = 0) (hl : seqFlags last = 2)
+    (hgap : consecutiveCounts ((first :: conts ++ [last]).map seqCount) = false) :
+    autoRun o g0 (first :: conts ++ [last]) =
+      (none, []) :: conts.map (fun _ => (none, [])) ++ [(none, [.warnSequence])] ∧
+    (first :: conts ++ [last]).foldl (fun st b => (autoStep o st b).1) g0 = [] := by
+  have hstep : autoStep o g0 first = ([first], none, []) := by simp [autoStep, hc, hf]
+  have h := open_group_gap_dropped o hc [first] conts last (by simp) hcs hl (by simpa using hgap)
+  constructor
+  · simp only [List.cons_append, autoRun, hstep]
+    simpa using h.1
+  · simp only [List.cons_append, List.foldl_cons, hstep]
+    simpa using h.2
+
 /-- … and the same for the model itself under every interleaving: whatever packets of other APIDs are mixed in, and
     whatever groups those APIDs have open, if APID `a`'s own sub-history is FIRST, CONTINUATION*, LAST with consecutive
     counts then the outputs at `a`'s packets are: nothing, …, nothing, the whole group as one packet. -/
